@@ -541,3 +541,20 @@ Section Paths.
           rewrite in_cands_cons in Hz by exact Hs. rewrite Eg in Hz. cbn in Hz. destruct Hz.
   Qed.
 End Paths.
+
+(* top-level forms used by Props.v *)
+Lemma merge_paths_top : forall cmp sched,
+  preorder cmp -> (forall l, Permutation (sched l) l) ->
+  forall ts, Forall (fun t => wf_tree t = true) ts ->
+  forall p, p <> [] -> spec_at cmp ts (merge cmp sched ts) p.
+Proof.
+  intros cmp sched Hp Hs ts Hwf p Hne.
+  apply (merge_paths_lemma cmp sched Hs Hp (S (depths ts)) ts Hwf); [lia | exact Hne].
+Qed.
+
+Lemma merge_sorted_top : forall cmp sched, (forall l, Permutation (sched l) l) ->
+  forall ts, Forall (fun t => wf_tree t = true) ts -> sorted (merge cmp sched ts).
+Proof.
+  intros cmp sched Hs ts Hwf. apply merge_trees_sorted; [exact Hs|].
+  rewrite Forall_forall in *. intros t Ht. apply wft_sorted. apply Hwf. exact Ht.
+Qed.
